@@ -193,3 +193,34 @@ func TestConfirmPreviewAllocation(t *testing.T) {
 		t.Errorf("decoding a %d-byte file allocated %d MiB", len(file), d>>20)
 	}
 }
+
+// C11 CLOSE (failing paths): a top-level Canon preview uuid box whose payload is too short for the PRVW header
+// makes readPreview fail; ReadMetadata returned that error without skipping the rest of the box, so the next call
+// parsed the box's payload as a box header instead of finding the xpacket box that follows.
+func TestConfirmTopLevelBoxClosedAfterHandlerError(t *testing.T) {
+	prvwUUID := []byte{0xea, 0xf4, 0x2b, 0x5e, 0x1c, 0x98, 0x4b, 0x88, 0xb9, 0xfb, 0xb7, 0xdc, 0x40, 0x6e, 0x4d, 0x16}
+	xpktUUID := []byte{0xbe, 0x7a, 0xcf, 0xcb, 0x97, 0xa9, 0x42, 0xe8, 0x9c, 0x71, 0x99, 0x94, 0x91, 0xe3, 0xaf, 0xac}
+	packet := []byte("<x:xmpmeta>0123456789</x:xmpmeta>")
+	file := bytes.Join([][]byte{
+		ftyp("crx "),
+		box("uuid", prvwUUID, []byte{0, 0, 0, 0, 0, 0, 0, 1, 0, 0, 0, 12, 'f', 'r', 'e', 'e', 1, 2, 3, 4}), // 8 bytes, then a box that is not PRVW
+		box("uuid", xpktUUID, packet),
+	}, nil)
+	var got []byte
+	r := isobmff.NewReader(bytes.NewReader(file))
+	defer r.Close()
+	r.XMPReader = func(rd io.Reader) error { var err error; got, err = io.ReadAll(rd); return err }
+	r.PreviewImageReader = func(rd io.Reader, h meta.PreviewHeader) error { return nil }
+	if err := r.ReadFTYP(); err != nil {
+		t.Fatal(err)
+	}
+	if err := r.ReadMetadata(); err == nil {
+		t.Fatal("the malformed preview box was expected to fail")
+	}
+	if err := r.ReadMetadata(); err != nil {
+		t.Fatalf("second top-level box: %v (the reader was left inside the first one)", err)
+	}
+	if !bytes.Equal(got, packet) {
+		t.Fatalf("xpacket callback got %q, want %q", got, packet)
+	}
+}
